@@ -42,8 +42,13 @@ template <
         std::conjunction_v<std::is_unsigned<Value>, fcppt::enum_::is_object<Enum>>>>
 fcppt::optional::object<Enum> from_int(Value const &_value) noexcept
 {
+  // Compare in a type that can hold both operands: narrowing a wider _value
+  // first would let it wrap around into the enum's range.
+  using common_type = std::common_type_t<Value, fcppt::enum_::size_type<Enum>>;
+
   return fcppt::optional::make_if(
-      fcppt::cast::size<fcppt::enum_::size_type<Enum>>(_value) < fcppt::enum_::size<Enum>::value,
+      static_cast<common_type>(_value) <
+          static_cast<common_type>(fcppt::enum_::size<Enum>::value),
       [&_value] { return fcppt::cast::int_to_enum<Enum>(_value); });
 }
 }
